@@ -160,3 +160,72 @@ Proof. intros Hpos H1 H2. unfold keeps. cbn [length zsum zmax fold_right].
                                assert (0 <= fold_right Z.max 0 t) by (apply IH; intros; apply Hpos; right; assumption); lia).
   fold (zsum rest). fold (zmax rest). replace (big + zsum rest - Z.max big (zmax rest)) with (zsum rest) by lia.
   replace (big' + zsum rest - Z.max big' (zmax rest)) with (zsum rest) by lia. reflexivity. Qed.
+
+(* ------------------------------------------------------------------ mesh edges, border flags *)
+Fixpoint nodup_sym (es : list (Z * Z)) : Prop :=
+  match es with [] => True | e :: t => pair_in (fst e) (snd e) t = false /\ nodup_sym t end.
+Lemma pair_in_app a b l1 l2 : pair_in a b (l1 ++ l2) = pair_in a b l1 || pair_in a b l2.
+Proof. unfold pair_in. apply existsb_app. Qed.
+Lemma pair_in_sym a b es : pair_in a b es = pair_in b a es.
+Proof. unfold pair_in. induction es as [|e t IH]; simpl; [reflexivity|]. rewrite IH. f_equal. apply orb_comm. Qed.
+Lemma pair_in_single a b c d : pair_in a b [(c, d)] = pair_in c d [(a, b)].
+Proof. unfold pair_in. simpl. rewrite !orb_false_r. rewrite (Z.eqb_sym c a), (Z.eqb_sym d b), (Z.eqb_sym c b), (Z.eqb_sym d a).
+  rewrite (andb_comm (b =? c) (a =? d)). reflexivity. Qed.
+Lemma nodup_sym_snoc es p : nodup_sym es -> pair_in (fst p) (snd p) es = false -> nodup_sym (es ++ [p]).
+Proof. destruct p as [c d]. cbn [fst snd]. induction es as [|[a b] t IH]; intros Hn Hp; cbn [app nodup_sym fst snd]; [split; [reflexivity|exact I]|].
+  cbn [nodup_sym fst snd] in Hn. destruct Hn as [H1 H2].
+  change (pair_in c d ((a, b) :: t)) with (pair_in c d ([(a, b)] ++ t)) in Hp. rewrite pair_in_app in Hp. apply orb_false_elim in Hp. destruct Hp as [Hp1 Hp2].
+  split; [|apply IH; assumption]. rewrite pair_in_app, H1. cbn [orb]. rewrite pair_in_single. exact Hp1. Qed.
+Lemma add_edge_nodup es p : nodup_sym es -> nodup_sym (add_edge es p).
+Proof. intros H. unfold add_edge. destruct (pair_in (fst p) (snd p) es) eqn:E; [exact H|]. apply nodup_sym_snoc; assumption. Qed.
+Lemma fold_add_nodup ps es : nodup_sym es -> nodup_sym (fold_left add_edge ps es).
+Proof. revert es; induction ps as [|p t IH]; intros es H; [exact H|]. simpl. apply IH. apply add_edge_nodup. exact H. Qed.
+(* no unordered pair of vertices gets two mesh edges *)
+Theorem edges_no_duplicates cells : nodup_sym (edges_of_cells cells).
+Proof. apply fold_add_nodup. exact I. Qed.
+
+Lemma add_edge_mono a b es p : pair_in a b es = true -> pair_in a b (add_edge es p) = true.
+Proof. intros H. unfold add_edge. destruct (pair_in (fst p) (snd p) es); [exact H|]. rewrite pair_in_app, H. reflexivity. Qed.
+Lemma add_edge_self es p : pair_in (fst p) (snd p) (add_edge es p) = true.
+Proof. unfold add_edge. destruct (pair_in (fst p) (snd p) es) eqn:E; [exact E|]. rewrite pair_in_app. destruct p as [a b]. unfold pair_in at 2. simpl.
+  rewrite !Z.eqb_refl. simpl. apply orb_true_r. Qed.
+Lemma fold_add_mono a b ps es : pair_in a b es = true -> pair_in a b (fold_left add_edge ps es) = true.
+Proof. revert es; induction ps as [|p t IH]; intros es H; [exact H|]. simpl. apply IH. apply add_edge_mono. exact H. Qed.
+Lemma fold_add_complete ps es p : In p ps -> pair_in (fst p) (snd p) (fold_left add_edge ps es) = true.
+Proof. revert es; induction ps as [|q t IH]; intros es H; [destruct H|]. destruct H as [-> | H]; simpl.
+  - apply fold_add_mono. apply add_edge_self.
+  - apply IH. exact H. Qed.
+(* every pair of consecutive contour vertices of every cell (the closing pair included) has its mesh edge *)
+Theorem edges_complete cells c p : In c cells -> In p (cell_pairs c) -> pair_in (fst p) (snd p) (edges_of_cells cells) = true.
+Proof. intros Hc Hp. unfold edges_of_cells. apply fold_add_complete. apply in_concat. exists (cell_pairs c). split; [apply in_map; exact Hc|exact Hp]. Qed.
+
+Lemma fold_add_sound ps es e : In e (fold_left add_edge ps es) -> In e es \/ In e ps.
+Proof. revert es; induction ps as [|q t IH]; intros es H; [left; exact H|]. simpl in H. apply IH in H. destruct H as [H | H]; [|right; right; exact H].
+  unfold add_edge in H. destruct (pair_in (fst q) (snd q) es); [left; exact H|]. apply in_app_or in H. destruct H as [H | [-> | []]]; [left; exact H|right; left; reflexivity]. Qed.
+(* ... and there is no other mesh edge *)
+Theorem edges_sound cells e : In e (edges_of_cells cells) -> exists c, In c cells /\ In e (cell_pairs c).
+Proof. intros H. apply fold_add_sound in H. destruct H as [[] | H]. apply in_concat in H. destruct H as [ps [H1 H2]].
+  apply in_map_iff in H1. destruct H1 as [c [<- Hc]]. exists c. split; assumption. Qed.
+
+Lemma memZ_In v l : memZ v l = true <-> In v l.
+Proof. unfold memZ. rewrite existsb_exists. split; [intros [x [H1 H2]]; apply Z.eqb_eq in H2; subst; exact H1|intros H; exists v; split; [exact H|apply Z.eqb_refl]]. Qed.
+(* a border cell is one with a vertex that belongs to exactly one cell *)
+Theorem is_border_spec cells c : is_border cells c = true <-> exists v, In v c /\ length (filter (memZ v) cells) = 1%nat.
+Proof. unfold is_border, n_own_cells. rewrite existsb_exists. split; intros [v [H1 H2]]; exists v; split; try exact H1.
+  - apply Nat.eqb_eq. exact H2.
+  - apply Nat.eqb_eq. exact H2. Qed.
+Lemma filter_single_own {A} (p : A -> bool) l c : In c l -> p c = true -> length (filter p l) = 1%nat -> forall d, In d l -> p d = true -> d = c.
+Proof. intros Hc Hpc Hlen d Hd Hpd. assert (Hf : In c (filter p l)) by (apply filter_In; split; assumption).
+  assert (Hg : In d (filter p l)) by (apply filter_In; split; assumption).
+  destruct (filter p l) as [|x [|y t]]; simpl in Hlen; try discriminate. destruct Hf as [-> | []]. destruct Hg as [-> | []]. reflexivity. Qed.
+(* ... and that one cell is the cell itself: the vertex belongs to no other cell *)
+Theorem border_vertex_is_private cells c : In c cells -> is_border cells c = true ->
+  exists v, In v c /\ forall d, In d cells -> In v d -> d = c.
+Proof. intros Hc H. apply is_border_spec in H. destruct H as [w [Hw Hl]]. exists w. split; [exact Hw|].
+  intros d Hd Hwd. apply (filter_single_own (memZ w) cells c Hc); [apply memZ_In; exact Hw|exact Hl|exact Hd|apply memZ_In; exact Hwd]. Qed.
+(* a removed (isolated) cell shares no vertex with any other cell *)
+Theorem isolated_shares_nothing cells c : In c cells -> is_isolated cells c = true -> forall v d, In v c -> In d cells -> In v d -> d = c.
+Proof. intros Hc H v d Hv Hd Hvd. unfold is_isolated in H. rewrite forallb_forall in H. specialize (H v Hv). apply Nat.leb_le in H. unfold n_own_cells in H.
+  assert (Hf : In c (filter (memZ v) cells)) by (apply filter_In; split; [exact Hc|apply memZ_In; exact Hv]).
+  assert (Hg : In d (filter (memZ v) cells)) by (apply filter_In; split; [exact Hd|apply memZ_In; exact Hvd]).
+  destruct (filter (memZ v) cells) as [|x [|y t]]; simpl in H; [destruct Hf| |lia]. destruct Hf as [-> | []]. destruct Hg as [-> | []]. reflexivity. Qed.
